@@ -37,6 +37,12 @@ def check_case(binpath, content):
     out = []
     try:
         r = Reader(data)
+        # "option 1": the structure is the body of a present optional structure: one element with the size of the body
+        # in elements first (SERIALIZATION.md, optional structures), then the body itself.
+        wrapped = content.get("option") == "1"
+        if wrapped:
+            declared = r.elem()
+            body_start = r.pos
         if t == "raw":
             n, words = r.raw_vector()
             big = 0
@@ -101,6 +107,8 @@ def check_case(binpath, content):
                 out.append(("written.option.content", "decoded optional vector differs from the model"))
         else:
             out.append(("written.unknown_type", t))
+        if wrapped and not out and r.pos - body_start != declared:
+            out.append(("written.option.size", "optional %s declares %d elements but its body takes %d" % (t, declared, r.pos - body_start)))
         if not r.at_end() and not out:
             out.append(("written.%s.trailing" % t, "%d bytes are left after the structure" % (len(data) - r.pos * 8)))
     except FormatError as e:
